@@ -2140,6 +2140,24 @@ def drift(tier='quick'):
         f_ = [int(fl[i + 1]) for i in range(len(fl) - 1) if fl[i] == '-f']
         evs.append({'e': 'dlog', 'i': len(evs) + 1, 'opts': fl, 'args': {'f': [f_] if f_ else []}, 'lines': lines, 'code': r['code'],
                     'log': [cli.cps(x) for x in logged]})
+    # the refresh schedule: a timed TCP feed, one applied frame after each gap; TLC judges every frame against RefreshRule.Due
+    import tcp, concurrent.futures as cf
+    rmodels = []
+    for cfgname in ('m1', 'm5', '0', '1', '3'):
+        r = vlib.tlc_model('MC_refresh', cfg='MC_refresh_%s.cfg' % cfgname, workers=4, timeout=600)
+        rmodels.append((cfgname, r.get('states'), r.get('ok', True)))
+    print('refresh model (EveryFrame, Spaced, Prompt) for update in -1, -5, 0, 1, 3:', rmodels)
+    apalache_ind(rep, 'DRIFT', 'RefreshInd', 'any update in -100..100000 s, any arrival gaps: refreshes at least update + 1 s apart, none before 2 update + 1 s, every frame when update < 0')
+    print('; '.join(rep.notes[-1:]))
+    gapsets = [(-1, [0.4, 0.4, 0.4, 1.2, 0.4, 0.4]), (0, [0.4, 0.4, 0.45, 0.4, 1.3, 0.4, 0.4, 0.6, 0.4, 2.2, 0.4]),
+               (1, [0.4, 0.4, 0.4, 0.4, 0.4, 1.5, 0.4, 0.4, 0.4, 0.4, 0.4, 0.4, 0.4, 0.4, 2.6, 0.4, 0.4]),
+               (2, [0.5, 1.0, 1.0, 1.0, 1.0, 1.0, 1.0, 0.5, 0.5, 0.5, 0.5, 0.5, 0.5, 3.5, 0.5])]
+    with cf.ThreadPoolExecutor(max_workers=4) as ex:
+        futs = [ex.submit(tcp.run_refresh_scenario, cb, u, gaps, 1000 + k) for k, (u, gaps) in enumerate(gapsets)]
+        for f in futs:
+            evs.append(f.result())
+    for k, e in enumerate(evs):
+        e['i'] = k + 1
     trc = os.path.join(vlib.workdir(), 'driftcli.trace.ndjson')
     vlib.write_ndjson(trc, evs)
     traces = traces + [trc]
